@@ -11665,6 +11665,7 @@ class ExceptionBlockStatementSegment(BaseSegment):
                 ),
             ),
         ),
+        Dedent,
     )
 
 
